@@ -201,6 +201,9 @@ ParallelInit(int_t n, pxgstrf_relax_t *pxgstrf_relax,
     }
 #endif
 
+#ifdef SLU_MT_VERIF
+    SLU_MT_VERIF_EVENT(SLUV_PARINIT_END, -1, n, 0, 0, pxgstrf_shared);
+#endif
     return 0;
 } /* ParallelInit */
 
@@ -210,6 +213,9 @@ ParallelInit(int_t n, pxgstrf_relax_t *pxgstrf_relax,
  */
 int_t ParallelFinalize(pxgstrf_shared_t *pxgstrf_shared)
 {
+#ifdef SLU_MT_VERIF
+    SLU_MT_VERIF_EVENT(SLUV_PARFINAL, -1, 0, 0, 0, pxgstrf_shared);
+#endif
     /* Destroy mutexes */
 #if ( MACH==SUN )
     register int_t i;
@@ -364,6 +370,9 @@ int_t NewNsuper(const int_t pnum, pxgstrf_shared_t *pxgstrf_shared, int_t *data)
 
 #ifdef PROFILE
     Gstat->procstat[pnum].cs_time += SuperLU_timer_() - t;
+#endif
+#ifdef SLU_MT_VERIF
+    SLU_MT_VERIF_EVENT(SLUV_NEWNSUPER, pnum, i, 0, 0, pxgstrf_shared);
 #endif
 	
     return i;
